@@ -1831,11 +1831,11 @@ def out_suffix_cases(prefix, seed):
     ]
     for i, (sigs, hdr, row) in enumerate(specs):
         outs = [k for k, s_ in enumerate(sigs) if s_["typ"] in ("O", "B")]
-        for j in range(3):
-            table = [[str(rng.randrange(0, 16)) for _ in outs] for _ in range(3)]
-            faults = [] if j == 0 else [(rng.randrange(1, 3), rng.choice(["swap 0 1", "subst 0 1", "subst 1 0", "dup 0"]))]
+        for j in range(5):
+            table = [[str(3 + 2 * k_ + j + r_) for k_ in range(len(outs))] for r_ in range(3)]
+            faults = [[], [(1, "swap 0 1")], [(2, "subst 0 1")], [(1, "subst 1 0")], [(2, "dup 0")]][j]
             lay = list(outs)
-            if j == 2:
+            if j in (1, 4):
                 lay.reverse()
             cases.append({"id": "%s-sfx-%d-%d" % (prefix, i, j), "kind": "run", "src": hdr + "\n" + row + "\n" + row + "\n(1) " + " ".join(row.split()[1:]) + "\n",
                           "sigs": [dict(s_) for s_ in sigs], "layout": lay, "table": table, "echo": 0, "wdefault": 0, "faults": faults, "cont": 1, "max": 50, "seed": 1})
@@ -1907,3 +1907,24 @@ PROPS["C02"]["cases"] = lambda seed, tier: _c02b(seed, tier) + add_faults(run_fa
 PROPS["C10"]["cases"] = static_twins(PROPS["C10"]["cases"], 3)
 PROPS["C10"]["tags"] = tuple(PROPS["C10"]["tags"]) + ("STATIC", "SROW")
 PROPS["C10"]["rule"] += "; every third test also through try_iter_static"
+
+
+# C17: several iterators over one test, interleaved, each with its own generator: every one of them yields the rows of the
+# iterator run alone INCLUDING the values drawn (same seed), i.e. no generator state is shared between runs
+def c17_multi_cases(seed, tier):
+    rng = random.Random(seed ^ 0x3177)
+    base = replay_cases(seed ^ 0x51, "quick")[: (12 if tier == "quick" else 60)]
+    out = []
+    for c in base:
+        run = dict(c, id=c["id"] + "-solo", kind="run", faults=[], wdefault=0)
+        out.append(run)
+        k = rng.randrange(2, 4)
+        out.append(dict(run, id=c["id"] + "-multi", kind="multi", niter=k, sched=[rng.randrange(0, k) for _ in range(rng.randrange(4, 30))],
+                        group=run["id"], no_model=True))
+    return out
+
+
+_c17_b2 = PROPS["C17"]["cases"]
+PROPS["C17"]["cases"] = lambda seed, tier: _c17_b2(seed, tier) + c17_multi_cases(seed, tier)
+PROPS["C17"]["pair_oracles"] = [c15_pair_oracle]
+PROPS["C17"]["rule"] += "; plus interleaved iterators over one test with random (each must reproduce the solo run, drawn values included)"
